@@ -240,9 +240,18 @@ func (p *polling) OnData(data types.BufferInterface) {
 // Decodes a payload. A revision 4 payload is split into its packets here:
 // the parser scans it with bufio.Scanner's default 64 KiB token limit and
 // silently drops a packet of that size or more (and everything after it).
-func (p *polling) decodePayload(data types.BufferInterface) ([]*packet.Packet, error) {
+func (p *polling) decodePayload(data types.BufferInterface) (packets []*packet.Packet, err error) {
 	if p.Protocol() != 4 {
-		packets, err := p.Parser().DecodePayload(data)
+		// the revision 3 binary decoder slices the payload by the lengths it declares
+		// and panics on one that is not a decimal number (bytes 30 fd 09 ff): to the
+		// session that is a payload that cannot be decoded, not the end of the request
+		defer func() {
+			if r := recover(); r != nil {
+				polling_log.Debug("payload decoder panicked: %v", r)
+				packets, err = nil, errUndecodablePacket
+			}
+		}()
+		packets, err = p.Parser().DecodePayload(data)
 		if _, ok := data.(*types.StringBuffer); ok && err == nil && data.Len() > 0 {
 			// the revision 3 decoder gives up at a packet it cannot decode
 			// without saying so: what it has not consumed tells
@@ -255,7 +264,7 @@ func (p *polling) decodePayload(data types.BufferInterface) ([]*packet.Packet, e
 		// nothing after the last separator (or an empty payload)
 		encodedPackets = encodedPackets[:n-1]
 	}
-	packets := make([]*packet.Packet, 0, len(encodedPackets))
+	packets = make([]*packet.Packet, 0, len(encodedPackets))
 	for _, encodedPacket := range encodedPackets {
 		packetData, err := p.Parser().DecodePacket(types.NewStringBuffer(encodedPacket))
 		if err != nil {
